@@ -109,6 +109,14 @@ def is_valid(o):
         return False
 
 
+def str_ok(o):
+    try:
+        str(o)
+        return True
+    except Exception:  # noqa
+        return False
+
+
 def classify(e):
     msg = str(e)
     if type(e) is Exception:
@@ -179,11 +187,13 @@ def run_call(parent, call, objs, real_stdout):
                 probe.setup_nml_cell()
                 r["cell"] = dump(probe)
             r["vchild"] = is_valid(probe)
+            r["str_ok"] = str_ok(probe)
         except Exception:  # noqa
             r["vchild"] = False
     objs.append(child)
     if ch["kind"] in ("obj", "same"):
         r["child"] = dump(child)
+        r["str_ok"] = str_ok(child)
     before = dump(parent)
     ids_before = idvec(parent)
     held_before = holds(parent, child) if ch["kind"] in ("obj", "same") else []
@@ -199,6 +209,12 @@ def run_call(parent, call, objs, real_stdout):
             r["code"] = [20 if ret is None else 0, []]
         except BaseException as e:  # noqa
             r["code"] = classify(e)
+            tb, in_str = e.__traceback__, False
+            while tb is not None:
+                in_str = in_str or tb.tb_frame.f_code.co_name == "__str__"
+                tb = tb.tb_next
+            if in_str:
+                r["code"] = [10, []]   # raised by the child's __str__ while the duplicate warning was formatted
             r["exc"] = type(e).__name__ + ": " + str(e)[:160]
     lg.removeHandler(handler)
     r["switch_unchanged"] = btv.ENABLED == sw
@@ -210,6 +226,7 @@ def run_call(parent, call, objs, real_stdout):
                      | set(k for k in set(ids_before) | set(ids_after) if ids_before.get(k) != ids_after.get(k)))
     r["changed"] = changed
     r["parent_after"] = after if changed else None
+    r["changed_fields"] = [[n, b] for (n, a), (_, b) in zip(before["fields"], after["fields"]) if a != b]
     if ret is not None:
         r["ret"] = dump(ret) if hasattr(ret, "member_data_items_") else {"cls": type(ret).__name__, "fields": []}
         r["ret_is_child"] = ret is child
